@@ -267,3 +267,71 @@ Proof.
   apply (no_deadlock_acyclicb g (fwants s) (fowner s) Hac) with (D := D); [|exact HD].
   intros t l h Hw Ho. apply (finv_reach g s0 s Hi Hr t l h Hw Ho).
 Qed.
+
+(* ---- the hypothesis is needed --------------------------------------------- *)
+
+(* with the two orders A-then-B and B-then-A both allowed, two threads reach a
+   deadlock: thread 0 holds lock 0 and wants 1, thread 1 holds 1 and wants 0 *)
+Definition inverted_graph : graph := [(0, 1); (1, 0)].
+
+Definition inverted_start : pstate :=
+  {| progs := fun t => match t with
+                       | O => [Acq 0; Acq 1]
+                       | S O => [Acq 1; Acq 0]
+                       | _ => []
+                       end;
+     powner := fun _ => None |}.
+
+Lemma inverted_order_deadlocks :
+  acyclicb inverted_graph = false /\
+  exists s, pinit inverted_graph inverted_start /\ preach inverted_start s /\ pdeadlock s.
+Proof.
+  split; [vm_compute; reflexivity|].
+  set (s1 := {| progs := set_at (progs inverted_start) 0%nat [Acq 1];
+                powner := set_owner (powner inverted_start) 0 (Some 0%nat) |}).
+  set (s2 := {| progs := set_at (progs s1) 1%nat [Acq 0];
+                powner := set_owner (powner s1) 1 (Some 1%nat) |}).
+  exists s2. split; [|split].
+  - split; [intro l; reflexivity|].
+    intros [|[|t]]; cbn [inverted_start progs respects].
+    + split; [intros h []|]. split; [|exact I].
+      intros h [->|[]]. left. reflexivity.
+    + split; [intros h []|]. split; [|exact I].
+      intros h [->|[]]. right. left. reflexivity.
+    + exact I.
+  - apply pr_step with s1.
+    + apply pr_step with inverted_start; [apply pr_refl|].
+      apply (ps_acq inverted_start 0%nat 0 [Acq 1]); reflexivity.
+    + apply (ps_acq s1 1%nat 1 [Acq 0]); reflexivity.
+  - exists (fun t => t = 0%nat \/ t = 1%nat). split.
+    + exists 0%nat. left. reflexivity.
+    + intros t [->| ->].
+      * exists 1, 1%nat. split; [exists []; reflexivity|]. split; [reflexivity|right; reflexivity].
+      * exists 0, 0%nat. split; [exists []; reflexivity|]. split; [reflexivity|left; reflexivity].
+Qed.
+
+(* a thread that leaks a lock (returns without releasing it) and later takes
+   it again blocks on itself for ever: the one-thread deadlock *)
+Definition leak_start : pstate :=
+  {| progs := fun t => match t with O => [Acq 0; Acq 0] | _ => [] end;
+     powner := fun _ => None |}.
+
+Lemma leaked_lock_self_deadlock :
+  exists s, preach leak_start s /\ pdeadlock s.
+Proof.
+  set (s1 := {| progs := set_at (progs leak_start) 0%nat [Acq 0];
+                powner := set_owner (powner leak_start) 0 (Some 0%nat) |}).
+  exists s1. split.
+  - apply pr_step with leak_start; [apply pr_refl|].
+    apply (ps_acq leak_start 0%nat 0 [Acq 0]); reflexivity.
+  - exists (fun t => t = 0%nat). split; [exists 0%nat; reflexivity|].
+    intros t ->. exists 0, 0%nat. split; [exists []; reflexivity|]. split; reflexivity.
+Qed.
+
+(* every edge of a graph is realisable by a well-formed program *)
+Lemma edge_program_respects : forall g a b,
+  In (a, b) g -> respects g (fun _ => False) [Acq a; Acq b; Rel b; Rel a].
+Proof.
+  intros g a b Hin. cbn [respects]. split; [intros h []|]. split; [|exact I].
+  intros h [->|[]]. exact Hin.
+Qed.
